@@ -675,7 +675,8 @@ def suite_conc(pid, tier, seed):
     diffs, failures, distinct = [], [], set()
     nsteps = 0
     # an injected obstacle makes a call return an error: which error type the library wraps it in is not modelled
-    canon = lambda ls: [re.sub(r"-> err:(?!panic|BlobDataMissing)\S+.*$", "-> err:fault", re.sub(r" (I|S)=\d+", r" \1=*", l)) for l in ls[1:]]
+    # (the `R ...` lines - restart after the run - are judged by the oracle alone: the model carries no log bytes)
+    canon = lambda ls: [re.sub(r"-> err:(?!panic|BlobDataMissing)\S+.*$", "-> err:fault", re.sub(r" (I|S)=\d+", r" \1=*", l)) for l in ls[1:] if not l.startswith("R ")]
     for c in cases:
         name = c.split("\n", 1)[0][5:]
         rl, ml = R.get(name, []), M.get(name, [])
